@@ -18,10 +18,12 @@ theorem created_registered {w w' : World} {s : Nat} {a0 a1 : Asset} {req : Requi
       R.a1 = a1 :=
   Halo.Reach.created_registered hr h
 
-/-- two lookups that return the same pair address are over the same unordered asset set -/
+/-- two lookups that return the same pair address are over the same unordered pair of raw identifiers — and, when
+the four queried assets are live, over the same unordered asset set -/
 theorem lookup_distinct_addr {w : World} (hr : RegOK w) (hraw : RawOK w) {a b c d : Asset} {R1 R2 : Record}
     (h1 : facLookup w a b = some R1) (h2 : facLookup w c d = some R2) (hp : R1.pair = R2.pair) :
-    (a = c ∧ b = d) ∨ (a = d ∧ b = c) :=
+    ((w.rawId a = w.rawId c ∧ w.rawId b = w.rawId d) ∨ (w.rawId a = w.rawId d ∧ w.rawId b = w.rawId c)) ∧
+    (Live w a → Live w b → Live w c → Live w d → (a = c ∧ b = d) ∨ (a = d ∧ b = c)) :=
   Halo.Reach.lookup_distinct_addr hr hraw h1 h2 hp
 
 /-- the pair contract a creation instantiates describes itself with the created assets and LP token and with the
@@ -40,20 +42,61 @@ theorem registry_only_grows {name : Asset → String} {w w' : World} {op : Op} {
       R'.lp = R.lp ∧ R'.a0 = R.a0 ∧ R'.a1 = R.a1 ∧ R'.req = R.req ∧ R'.comm = R.comm :=
   Halo.Reach.registry_only_grows hr h
 
-/-- the registry invariant (and the environment assumption `RawOK`, which speaks about `rawId` only) holds after
-every history whose steps are not sent to a pair by the factory contract and allocate unused pair addresses -/
+/-- the registry invariant holds after every history whose steps are not sent to a pair by the factory contract and
+allocate unused pair addresses; so does the environment assumption `RawOK` when moreover every newly live asset gets
+a fresh raw identifier (`RawRun`, see `rawOK_run`) -/
 theorem regOK_run {name : Asset → String} (ops : List Op) (w : World) (hr : RegOK w) (hraw : RawOK w)
-    (hrun : RegRun name w ops) : RegOK (run name w ops) ∧ RawOK (run name w ops) :=
+    (hrun : RegRun name w ops) : RegOK (run name w ops) ∧ (RawRun name w ops → RawOK (run name w ops)) :=
   Halo.Reach.regOK_run ops w hr hraw hrun
+
+/-- the invariant alone needs no assumption on raw identifiers -/
+theorem regOK_run_only {name : Asset → String} (ops : List Op) (w : World) (hr : RegOK w)
+    (hrun : RegRun name w ops) : RegOK (run name w ops) :=
+  (Halo.Reach.regOK_run'' ops w hr hrun).1
 
 /-- histories of external actors' operations are such histories -/
 theorem regRun_of_validRun {name : Asset → String} (ops : List Op) (w : World) (h : ValidRun name w ops) :
     RegRun name w ops :=
   Halo.Reach.regRun_of_validRun ops w h
 
-/-- `RawOK` alone holds after any history whatsoever: no operation changes `rawId` -/
-theorem rawOK_run {name : Asset → String} (ops : List Op) (w : World) (hraw : RawOK w) : RawOK (run name w ops) :=
-  Halo.Reach.rawOK_run ops w hraw
+/-- `RawOK` speaks about `rawId`, which no operation changes, and about the live assets, whose set only grows
+(`live_run`) — by the LP token of a created pair and by the denom of an `AddNativeTokenDecimals` (`NewLive`).  It is
+preserved by an operation when the asset the operation makes live carries a raw identifier no other live asset
+carries (`RawFreshOK`: the chain allocates a fresh address to the LP token; the owner registers a denom that is not
+the raw identifier of a live asset) … -/
+theorem rawOK_step {name : Asset → String} {w w' : World} {op : Op} {out : Out} (hraw : RawOK w)
+    (hf : RawFreshOK w op)
+    (h : exec name w op = .ok (w', out)) : RawOK w' :=
+  Halo.Reach.rawOK_step hraw hf h
+
+/-- … in particular, unconditionally, by every operation that makes no further asset live -/
+theorem rawOK_step_of_no_new {name : Asset → String} {w w' : World} {op : Op} {out : Out} (hraw : RawOK w)
+    (hn : ∀ b, Halo.RegOKP.NewLive op b → Live w b) (h : exec name w op = .ok (w', out)) : RawOK w' :=
+  Halo.Reach.rawOK_step_of_no_new hraw hn h
+
+/-- … and so along every history whose steps satisfy `RawFreshOK` (`RawRun`).  Formerly `RawOK` was injectivity of
+`rawId` on ALL identifiers, which no history can break but which fails in worlds with aliased non-live identifiers;
+the side condition is the price of the weaker assumption. -/
+theorem rawOK_run {name : Asset → String} (ops : List Op) (w : World) (hraw : RawOK w) (hrun : RawRun name w ops) :
+    RawOK (run name w ops) :=
+  Halo.Reach.rawOK_run ops w hraw hrun
+
+/-- `RawFreshOK` for the two operations that can make an asset live -/
+theorem rawFreshOK_createPair {w : World} {s : Nat} {f : List (Nat × Nat)} {a0 a1 : Asset} {req : Requirements}
+    {c ld : Option Nat} {np nl : Nat} :
+    RawFreshOK w (.factory s f (.createPair a0 a1 req c ld np nl)) ↔
+      ∀ a, Live w a → a ≠ .token nl → w.rawId a ≠ w.rawId (.token nl) :=
+  Halo.Reach.rawFreshOK_createPair
+
+theorem rawFreshOK_addDecimals {w : World} {s : Nat} {f : List (Nat × Nat)} {d k : Nat} :
+    RawFreshOK w (.factory s f (.addDecimals d k)) ↔
+      ∀ a, Live w a → a ≠ .native d → w.rawId a ≠ w.rawId (.native d) :=
+  Halo.Reach.rawFreshOK_addDecimals
+
+/-- liveness is never revoked along a history -/
+theorem live_run {name : Asset → String} (ops : List Op) (w : World) {a : Asset} (hl : Live w a) :
+    Live (run name w ops) a :=
+  Halo.Reach.live_run ops w hl
 
 /-- whatever is registered stays registered, for the same pair, after any later history -/
 theorem registered_forever {name : Asset → String} (ops : List Op) (w : World) (hr : RegOK w) (hraw : RawOK w)
